@@ -118,7 +118,7 @@ func fromBuilder(e *Expr) *cedar.Policy {
 // signature of their own, so that the known finding is identified by the failing input
 // and every other violation of the same kind is still reported under its own signature.
 func knownInputClass(e *Expr) string {
-	if e.Op == OLit && e.Val.K == KDatetime && e.Val.I < gen.MinI+25975808 {
+	if e.Op == OLit && e.Val.K == KDatetime && e.Val.I < gen.MinI+86400000 {
 		return "datetime-in-first-representable-day"
 	}
 	if e.Op == ONeg && e.Args[0].Op == OLit && e.Args[0].Val.K == KLong && e.Args[0].Val.I == 0 {
